@@ -237,6 +237,18 @@ theorem increaseCutoffTo_monotone (c : Nat) (s : CSampler) :
     by rw [h3]; exact growLen_ge_left _ _, fun hi => ⟨h4 hi, inv_n_le _ (h4 hi), ?_⟩⟩
   rw [h3, growLen_eq_max]; unfold CSampler.Inv at hi; omega
 
+/-- a clone / a restored snapshot reports the cutoff of the original (it is NOT recomputed from the
+current operator count: `nextCutoff 0 n` can be far below a cutoff reached earlier in the run),
+holds the same operators in the same container, and is in `Inv` iff the original is. -/
+theorem copy_identity (s : CSampler) :
+    (CSampler.copy s).cutoff = s.cutoff ∧ (CSampler.copy s).n = s.n ∧ (CSampler.copy s).len = s.len ∧
+    (s.Inv → (CSampler.copy s).Inv) :=
+  ⟨rfl, rfl, rfl, fun h => h⟩
+
+/-- why recomputing is wrong: a sampler whose count dropped below its all-time maximum -/
+example : nextCutoff 0 2 < (run [fun _ _ => true, fun _ _ => true, fun p _ => p < 2] (newIsing 4)).cutoff := by
+  decide
+
 /-- one public call on a pair of samplers: `Inv` on both sides again, object A's cutoff does not
 decrease, object B's does not decrease unless B was replaced by a freshly built sampler. -/
 theorem pair_action_invariant (p : CSampler × CSampler) (act : PairAction)
@@ -262,6 +274,8 @@ theorem pair_action_invariant (p : CSampler × CSampler) (act : PairAction)
       fun _ => Nat.le_refl _⟩
   | freshB c =>
     exact ⟨ha, newIsing_inv c, Nat.le_refl _, fun h => absurd rfl (h c)⟩
+  | copyA =>
+    exact ⟨ha, hb, Nat.le_refl _, fun _ => Nat.le_refl _⟩
 
 /-- any history of public calls (time steps with arbitrary decisions, raw swaps in either
 direction, raising a cutoff, conversion, partner rebuilt) from samplers in `Inv`: both in `Inv`
